@@ -18,6 +18,6 @@ NEXT Next
 VIEW View
 SYMMETRY Sym
 CONSTRAINT Bounded
-INVARIANTS TypeOK EncodingConsistent KeysWellPlaced PeekNeverWrong PeekNeverAfterDeadline PeekBoundedStaleness
+INVARIANTS TypeOK EncodingConsistent KeysWellPlaced PkIsPeek PeekNeverWrong PeekNeverAfterDeadline PeekBoundedStaleness
 PROPERTIES NeverWrong NeverAfterDelete NeverAfterDeadline NeverCorrupt ReadIsPeek NoAlias AddSemantics ReadYourWrites DeleteRemoves
 CHECK_DEADLOCK FALSE
